@@ -103,3 +103,17 @@ Theorem C03_code_apply : forall (T : Type) (O : Ops T) theory column, translated
   code_apply O theory column = apply O theory column.
 Proof. exact @code_apply_is_model. Qed.
 Print Assumptions C03_code_apply.
+
+(* which data sets are smeared at all (DataMixin._interpret_data): a data set in which SOME selected point has a
+   positive width gets pinhole smearing - its theory is then requested over every point's window - and an unsmeared data
+   set has no positive width; the choice is read from the current direct_model.py on every run (Gen/C03_dispatch.v) *)
+From SM Require Import C03.Dispatch Gen.C03_dispatch.
+Theorem C03_positive_width_is_smeared : forall (dq : list R) a b w, In w dq -> 0 < w -> dispatch ROps (Some dq) a b = RPinhole.
+Proof. exact positive_width_is_smeared. Qed.
+Print Assumptions C03_positive_width_is_smeared.
+Theorem C03_unsmeared_means_no_positive_width : forall (dq : list R) a b, dispatch ROps (Some dq) a b = RPerfect -> forall w, In w dq -> w <= 0.
+Proof. exact unsmeared_means_no_positive_width. Qed.
+Print Assumptions C03_unsmeared_means_no_positive_width.
+Theorem C03_code_dispatch : dispatch_translated = true -> forall (T : Type) (O : Ops T) dx a b, code_dispatch O dx a b = dispatch O dx a b.
+Proof. intros Ht. try solve [vm_compute in Ht; discriminate Ht]. all: reflexivity. Qed.
+Print Assumptions C03_code_dispatch.
